@@ -44,7 +44,8 @@ Lemma tstep_strict_save t th s f b th' s' e :
   | PSave KKey => tpc th' = PSave KCrt /\ nk th' = nk th /\
                   sto s' = sput (sto s) (SK (c_vk (cfg th)) KKey) (Some (VKey (nk th)))
   | PSave KCrt => tpc th' = PSave KMeta /\
-                  exists c, c_kid c = nk th /\ sto s' = sput (sto s) (SK (c_vk (cfg th)) KCrt) (Some (VCrt c))
+                  exists c, c_kid c = nk th /\ c_due c = c_issdue (cfg th) /\
+                            sto s' = sput (sto s) (SK (c_vk (cfg th)) KCrt) (Some (VCrt c))
   | PSave KMeta => tpc th' = PEmit2 /\ exists v, sto s' = sput (sto s) (SK (c_vk (cfg th)) KMeta) (Some v)
   | _ => True
   end.
@@ -57,7 +58,7 @@ Proof.
   all: try (split; [reflexivity|split; reflexivity]).
   all: try (split; [reflexivity|eexists; reflexivity]).
   all: destruct Hw3 as (c1 & Hn1 & Hd1 & Hk1); inversion Hn1; subst; try discriminate.
-  all: split; [reflexivity|eexists; split; [|reflexivity]; auto].
+  all: split; [reflexivity|eexists; split; [|split; [|reflexivity]]; auto].
 Qed.
 
 (** what a saver knows: the key it stored is still there when it stores the certificate *)
@@ -82,7 +83,7 @@ Proof.
   unfold Sinv in *. destruct (tpc th') eqn:E'; try exact I. destruct j; try exact I.
   - destruct (S1 eq_refl) as (Hp & _). rewrite Hp in SS. destruct SS as (_ & Hnk & ->).
     rewrite Hvk, sput_eq, Hnk. reflexivity.
-  - destruct (S2 eq_refl) as (Hp & _). rewrite Hp in SS, HS. destruct SS as (_ & c0 & Hk0 & ->).
+  - destruct (S2 eq_refl) as (Hp & _). rewrite Hp in SS, HS. destruct SS as (_ & c0 & Hk0 & _ & ->).
     rewrite Hvk. intros vk vc H1 H2. rewrite sput_neq in H1 by (intro X; inversion X). rewrite sput_eq in H2.
     rewrite HS in H1. inversion H1; inversion H2; subst. simpl. rewrite Hk0. apply Nat.eqb_refl.
 Qed.
